@@ -40,6 +40,8 @@ def main():
 
     from mc import core
     mod = importlib.import_module(f"mc.props.{prop.lower()}")
+    os.environ["VERIF_TIER_EFFECTIVE"] = tier
+    core.set_preload([mod.__name__])
 
     if args.replay:
         with open(args.replay) as f:
@@ -76,9 +78,9 @@ def main():
     n_known = 0
     viol_lines = []
     known_lines = {}
+    unconfirmed = []
     for k, plist in sorted(acc.problems.items()):
         prob = plist[0]
-        # determinism gate: the case must fail the same way from a fresh state ...
         core.reset_store()
         want = core.sig_key(core.jsonable(prob["sig"]))
         if prob["sig"].get("kind") == "did_not_terminate":
@@ -86,30 +88,36 @@ def main():
             n_viol += acc.problem_counts[k]
             viol_lines.append((core.write_replay(prop, prob), prob))
             continue
-        try:
-            again = core.run_isolated(mod.replay, core.jsonable(prob["case"]))
-        except Exception as e:  # noqa
-            sys.stderr.write(f"HARNESS-ERROR: replay of {k} crashed: {e!r}\n")
-            return 2
-        if not any(core.sig_key(core.jsonable(p["sig"])) == want for p in again):
-            # ... or, if it depends on state the library kept from earlier cases (a module-level cache, a mutated
-            # table), the same way when the block of cases that led to it is re-executed in a fresh process
-            confirmed = False
-            if prob.get("prov") is not None:
-                for res in core.rerun_block(prob["prov"]):
+        # determinism gate: some recorded instance of this signature (up to three are kept) must fail the same way ...
+        confirmed = None
+        for cand in plist:
+            try:
+                again = core.run_isolated(mod.replay, core.jsonable(cand["case"]))
+            except Exception as e:  # noqa
+                sys.stderr.write(f"HARNESS-ERROR: replay of {k} crashed: {e!r}\n")
+                return 2
+            if any(core.sig_key(core.jsonable(p["sig"])) == want for p in again):
+                # ... from a fresh state, alone ...
+                confirmed = cand
+                break
+            # ... or, if it depends on state the library kept from earlier cases (a module-level cache, a mutated table,
+            # remembered object addresses), when the block of cases that led to it is re-executed in a fresh process
+            if cand.get("prov") is not None:
+                hit = False
+                for res in core.rerun_block(cand["prov"]):
                     for p in _problems_in(res):
                         if core.sig_key(core.jsonable(p["sig"])) == want:
-                            confirmed = True
-            if not confirmed:
-                sys.stderr.write(
-                    "HARNESS-ERROR: problem not reproducible from its replay case nor from its block of cases "
-                    f"(nondeterminism in the harness?): {k}\n"
-                )
-                return 2
-            prob = dict(prob)
-            prob["case"] = {"history_dependent": True, "tier": tier, "case": core.jsonable(prob["case"]),
-                            "note": "fails only after the cases that precede it in its worker block (state kept by the "
-                                    "library between calls); replay re-runs the exploration"}
+                            hit = True
+                if hit:
+                    confirmed = dict(cand)
+                    confirmed["case"] = {"history_dependent": True, "tier": tier, "case": core.jsonable(cand["case"]),
+                                         "note": "fails only after the cases that precede it in its worker block (state kept by "
+                                                 "the library between calls); replay re-runs the exploration"}
+                    break
+        if confirmed is None:
+            unconfirmed.append(k)
+            continue
+        prob = confirmed
         f = core.match_finding(prop, prob["sig"], findings)
         if f is not None:
             n_known += acc.problem_counts[k]
@@ -118,6 +126,18 @@ def main():
         n_viol += acc.problem_counts[k]
         path = core.write_replay(prop, prob)
         viol_lines.append((path, prob))
+    if unconfirmed:
+        if not viol_lines:
+            # nothing else refutes the property in this run: an observation that cannot be reproduced is a defect of the
+            # harness (or of its determinism), never a verdict
+            sys.stderr.write(
+                "HARNESS-ERROR: problem not reproducible from its replay case nor from its block of cases "
+                f"(nondeterminism in the harness?): {unconfirmed}\n"
+            )
+            return 2
+        for k in unconfirmed:
+            print(f"UNCONFIRMED-OBSERVATION property={prop} (seen during exploration, not reproduced on re-execution; "
+                  f"not counted, the run has confirmed violations): {k}")
 
     for fid, f in sorted(known_lines.items()):
         print(f"KNOWN-FINDING: property={prop} {fid}: {f.get('text', '')}")
@@ -135,6 +155,7 @@ def main():
     coverage["distinct_outcomes"] = dict(sorted(acc.outcomes.items()))
     coverage["counts"] = dict(sorted(acc.counts.items()))
     coverage["violation_signatures"] = len(viol_lines)
+    coverage["unconfirmed_observations"] = unconfirmed
     coverage["known_finding_hits"] = n_known
     coverage["known_findings_witnessed"] = sorted(known_lines)
     if acc.notes:
